@@ -176,6 +176,76 @@ def check_string(case):
     return r
 
 
+# ---------------------------------------------------------------- a parser built in one thread, used from another; re-entrant use that must not block
+
+THREAD_FORMULAS = ['', '1+1', 'SUM(1,2,3)*4+A1', 'nosuch', 'NOSUCH(1)', '1+', '((', '#N/A', '1/0', 'v_s+1', 'BOOM()', 'IFERROR(BOOM(),1)', 'REENTER("1+1")+1', 'REENTER("nosuch")', 'REENTER("REENTER(\'2*3\')")&"x"', 'Z9', 'HF(v_l,B2)',
+                   'A1:B2', '"a"&v_s', 'TRUE', 'SQRT(-1)', '~']
+STALL_S = 8.0
+
+
+def in_thread(fn):
+    """-> ('ok', value) | ('raised', exception) | ('blocked', lines executed) ; blocked = the thread executed no line of the library for STALL_S seconds and has not returned"""
+    import threading
+    import time
+    box = {}
+    ticks = [0]
+    snap = snapshot.directory()
+
+    def local(frame, event, arg):
+        ticks[0] += 1
+        return local
+
+    def glob(frame, event, arg):
+        fname = frame.f_code.co_filename
+        if fname.startswith(snap) or '/ply/' in fname:
+            ticks[0] += 1
+            return local
+        return None
+
+    def body():
+        sys.settrace(glob)
+        try:
+            box['v'] = ('ok', fn())
+        except Exception as e:
+            box['v'] = ('raised', e)
+        finally:
+            sys.settrace(None)
+    t = threading.Thread(target=body, daemon=True)
+    t.start()
+    seen, deadline = -1, time.monotonic() + STALL_S
+    while t.is_alive():
+        t.join(0.05)
+        if ticks[0] != seen:
+            seen, deadline = ticks[0], time.monotonic() + STALL_S
+        elif time.monotonic() > deadline:
+            return ('blocked', ticks[0])
+    return box['v']
+
+
+def check_thread_use(case):
+    text = THREAD_FORMULAS[case['f']]
+    P = make_parser()                    # built here, in the thread that runs the check
+    P.debug = case['debug']
+
+    def boom(*a):
+        raise ValueError('host failure')
+    P.set_function('BOOM', boom)
+    P.set_function('REENTER', lambda t: P.parse(t)['result'])
+    P.on('callCellValue', lambda cell, setter: (_ for _ in ()).throw(KeyError('listener failure')) if cell.label == 'Z9' else None)
+    import io
+    import contextlib
+    with contextlib.redirect_stderr(io.StringIO()):
+        out = in_thread(lambda: P.parse(text))
+    where = 'parse(%r) called in another thread than the one that built the parser%s' % (text, ' (debug on)' if case['debug'] else '')
+    if out[0] == 'blocked':
+        raise Violation('%s did not return: after %d line events the thread executed nothing for %d s (blocked, not busy)' % (where, out[1], STALL_S), 'blocked', 'returns a record')
+    if out[0] == 'raised':
+        raise Violation('%s raised %s: %s' % (where, type(out[1]).__name__, _safe(out[1])), type(out[1]).__name__, 'returns a record')
+    m = well_formed(out[1])
+    if m:
+        raise Violation('%s -> %s' % (where, m), _safe_repr(out[1]), 'well-formed record')
+
+
 def string_nontrivial(case):
     return len(case[1]) >= 3
 
@@ -559,11 +629,12 @@ def check_fuzz(case):
                 v.case = inp
                 raise
             tail = out[-600:]
-            if arts[0].startswith('timeout-'):
-                # libFuzzer's per-input limit is wall-clock time; on a loaded machine a starved process trips it on an input that the deterministic
-                # step budget (just applied above) evaluates in no time.  That is not a verdict on the code: the campaign simply ended early.
+            if arts[0].startswith(('timeout-', 'oom-')):
+                # libFuzzer's per-input limits are wall-clock time and resident memory; a starved process on a loaded machine trips the first, an input
+                # whose value is a huge integer or text (outside what this property's step budget decides, see the scope note in DESIGN.md) the second,
+                # on inputs that the deterministic oracle (just applied above) evaluates to a well-formed record.  Not a verdict on the code: the campaign ended early.
                 _FUZZ[shard] = (done, ncorp)
-                _FUZZ_NOTES.append('campaign %d stopped after %d executions: wall-clock limit hit on %r, which the step budget does not confirm' % (shard, done, text[:60]))
+                _FUZZ_NOTES.append('campaign %d stopped after %d executions: libFuzzer resource limit (%s) on %r, which the oracle does not confirm' % (shard, done, arts[0].split('-')[0], text[:60]))
                 return
             raise RuntimeError('libFuzzer saved %s but the oracle does not confirm it (inconclusive): %s' % (arts[0], tail))
         if p.returncode != 0 or done == 0:
@@ -609,6 +680,10 @@ LAWS = [
         required=('fn:ret', 'fn:raise', 'fn:raise_err', 'fn:ret_fresh_err', 'fn:raise_badstr', 'fn:reenter', 'fn:raise_chained', 'fn:resubscribe', 'listener:raise', 'setter-used'),
         rule='20 formulas touching a custom function, a variable, a cell, a range and built-ins, with every host callback (the function, 0-2 listeners per event kind) given a generated behaviour: return any value, return a fresh / subclassed / unprintable error object with any message, '
              'raise any of 18 exception types with any message (incl. canonical codes and none), raise an error singleton or a fresh error, raise an exception whose str() fails, call the setter 0-3 times with anything, re-enter parse(); both debug settings'),
+    Law('thread_and_reentry', check_thread_use, strategy=st.fixed_dictionaries({'f': st.integers(0, len(THREAD_FORMULAS) - 1), 'debug': st.booleans()}), quick=40, thorough=600, shards=(8, 16), shrink=False,
+        key=lambda c: 'thread' if 'REENTER' not in THREAD_FORMULAS[c['f']] else 'reentry',
+        rule='22 formulas (empty, valid, failing in every way, a custom function that evaluates on the same parser, two levels deep) evaluated in a thread other than the one that built the parser, with line tracing: '
+             'the call returns a well-formed record; an escaping exception is reported, and so is a thread that stops executing lines for 8 s without returning (blocked on a lock - a step budget cannot see that)'),
     Law('fuzz', check_fuzz, enumerate=enum_fuzz, shards=(4, 16), weight=fuzz_weight, nt_weight=fuzz_ntweight, key=lambda c: 'fuzz', guard=3700,
         rule='atheris/libFuzzer campaigns on parse() with coverage instrumentation of hotxlfp and ply, a dictionary of all function names and lexemes, alternately an empty and a seeded corpus, the oracle inside the target '
              '(4 x 12000 executions in quick, 16 x 400000 in thorough); evaluations = executed units, distinct non-trivial counted conservatively as the number of coverage-increasing corpus entries'),
